@@ -351,6 +351,12 @@ prop(
         Leg("std", "checked", "chacha_block", "C15", 1000000, 20000000, max_ops=32),
         Leg("std", "dev", "chacha_block", "C15", 50000, 1000000, max_ops=32),
         Leg("portable", "checked", "chacha_block", "C15", 20000, 300000, max_ops=32, tiers=("thorough",)),
+        # builds whose target features are fixed at compile time (code under cfg(target_feature = ..) exists only there)
+        Leg("nostd-sse41", "release", "chacha_block", "C15", 100000, 1000000, max_ops=32),
+        Leg("nostd-avx2", "release", "chacha_block", "C15", 100000, 1000000, max_ops=32),
+        Leg("nostd-sse2", "release", "chacha_block", "C15", 0, 1000000, max_ops=32),
+        Leg("nostd-ssse3", "release", "chacha_block", "C15", 0, 1000000, max_ops=32),
+        Leg("nostd-avx", "release", "chacha_block", "C15", 0, 1000000, max_ops=32),
     ],
     [REAL, STUB],
 )
@@ -462,6 +468,16 @@ prop(
     streams=[
         ("Blake256", 512 * MiB, Q, True),
         ("Blake224", 512 * MiB, T, True),
+        ("Blake256", 512 * MiB, Q, False, dict(oneshot=True)),
+        ("Blake224", 512 * MiB, T, False, dict(oneshot=True)),
+        ("Blake256", 512 * MiB, Q, False, dict(profile="checked")),
+        ("Blake256", 512 * MiB, T, False, dict(profile="checked", oneshot=True)),
+        ("Jh256", 512 * MiB, T, False, dict(oneshot=True)),
+        ("Jh384", 512 * MiB, T, False, dict(profile="checked")),
+        ("Skein512_64", 4096 * MiB, T, False, dict(oneshot=True)),
+        ("Skein256_32", 4096 * MiB, T, False, dict(profile="checked")),
+        ("Groestl256", 65536 * 64, Q, False, dict(oneshot=True)),
+        ("Groestl512", 65536 * 128, T, False, dict(profile="checked", oneshot=True)),
         ("Groestl224", 256 * 64, Q, True),
         ("Groestl256", 65536 * 64, Q, True),
         ("Groestl384", 256 * 128, Q, True),
@@ -778,28 +794,38 @@ def run_miri_layer(pid, tier, sd, replay_dir, results, violations, known, others
 
 def run_streams(pid, streams, tier, sd, replay_dir, results, violations, known):
     """Cross counter boundaries for real (no hook): implementation and reference in lock-step, all streams in parallel."""
-    binary = build("std", "release")
     procs = []
-    for (ty, boundary, tiers, with_ref) in streams:
+    for entry in streams:
+        (ty, boundary, tiers, with_ref) = entry[:4]
+        opt = entry[4] if len(entry) > 4 else {}
         if tier not in tiers:
             continue
+        binary = build("std", opt.get("profile", "release"))
         a = [binary, "stream", "--type", ty, "--boundary-bytes", str(boundary), "--seed", str(sd)]
         if not with_ref:
             a.append("--no-ref")
-        procs.append((ty, boundary, with_ref, subprocess.Popen(a, stdout=subprocess.PIPE, stderr=subprocess.PIPE, text=True)))
-    for ty, boundary, with_ref, p in procs:
+        if opt.get("oneshot"):
+            a.append("--oneshot")
+        label = ty + (" [one update call]" if opt.get("oneshot") else "") + (" [%s build]" % opt["profile"] if opt.get("profile") else "")
+        procs.append((label, boundary, with_ref, subprocess.Popen(a, stdout=subprocess.PIPE, stderr=subprocess.PIPE, text=True), a))
+    for ty, boundary, with_ref, p, argv in procs:
         so, se = p.communicate()
         try:
             out = json.loads(so.strip().splitlines()[-1])
         except (ValueError, IndexError):
-            log(se[-2000:])
-            raise HarnessError("stream %s failed rc=%s" % (ty, p.returncode))
+            if p.returncode == 101:  # the implementation panicked while streaming (e.g. an overflow check)
+                out = dict(absorbed=0, digest_mismatches=0, counter_mismatches=0, wall_ms=0, checks=[], panicked=True)
+                p.returncode = 1
+            else:
+                log(se[-2000:])
+                raise HarnessError("stream %s failed rc=%s" % (ty, p.returncode))
         results.append(dict(type=ty, boundary_bytes=boundary, absorbed=out["absorbed"], with_reference=with_ref, digest_mismatches=out["digest_mismatches"],
                             counter_mismatches=out["counter_mismatches"], wall_ms=out["wall_ms"], checkpoints=len(out["checks"])))
         log("[%s] stream %s across %d bytes: %d digest mismatches, %d counter mismatches, %.1fs" % (pid, ty, boundary, out["digest_mismatches"], out["counter_mismatches"], out["wall_ms"] / 1000.0))
         if p.returncode == 1:
-            sig = "streamed for real:%s:%d bytes:%s" % (ty, boundary, "digest" if out["digest_mismatches"] else "counter")
-            f = dict(kind="stream", type=ty, boundary_bytes=boundary, verif_seed=sd, with_reference=with_ref, ops=out["checks"], minimised_from=len(out["checks"]),
+            sig = "streamed for real:%s:%d bytes:%s" % (ty, boundary, "panic" if out.get("panicked") else "digest" if out["digest_mismatches"] else "counter")
+            f = dict(kind="stream", type=ty, boundary_bytes=boundary, verif_seed=sd, with_reference=with_ref, ops=out["checks"], minimised_from=len(out["checks"]), argv=argv[1:],
+                     profile=("checked" if "/checked/" in argv[0] else "release"),
                      violation=dict(properties=[pid], invariant="K3", signature=sig, at_op=0,
                                     detail="%s streamed across %d bytes for real: %d of %d digests around the boundary differ from the reference, %d counter readings differ from the true amount" % (ty, boundary, out["digest_mismatches"], len(out["checks"]), out["counter_mismatches"])))
             path = os.path.join(replay_dir, "%s-stream-%s-%d.json" % (pid, ty, boundary))
@@ -1009,9 +1035,12 @@ def replay(pid, path):
         print("OK replay: the schedule of Miri seed %d passes on this tree" % j["miri_seed"])
         return 0
     if j.get("kind") == "stream":
-        a = [build("std", "release"), "stream", "--type", j["type"], "--boundary-bytes", str(j["boundary_bytes"]), "--seed", str(j.get("verif_seed", 1))]
-        if not j.get("with_reference", True):
-            a.append("--no-ref")
+        if j.get("argv"):
+            a = [build("std", j.get("profile", "release"))] + j["argv"]
+        else:
+            a = [build("std", "release"), "stream", "--type", j["type"], "--boundary-bytes", str(j["boundary_bytes"]), "--seed", str(j.get("verif_seed", 1))]
+            if not j.get("with_reference", True):
+                a.append("--no-ref")
         p = subprocess.run(a, stdout=subprocess.PIPE, stderr=subprocess.PIPE, text=True)
         if p.returncode == 1:
             sig = j["violation"]["signature"]
